@@ -1415,3 +1415,54 @@ def c16_write_elf_strtab(path, shsize, be=False, machine="x86_64"):
         f.write(img)
     return ("dumpgen.c16_write_elf_strtab: %s ELF64 core, e_phnum=0, e_shnum=2, e_shstrndx=1, section 1 = SHT_STRTAB at file offset %#x "
             "with sh_size=%#x (the file is %#x bytes long)" % (machine, stroff, shsize & M64, len(img)))
+# ---------------------------------------------------------------- appended for C01 (ELF extended numbering)
+def write_elf_table(path, segs, ps=4096, machine="x86_64", elfclass=64, be=False, notes=b"", shnum_field=1, force_xnum=False):
+    """ELF core whose program header table may need the gABI 'extended numbering': with 0xffff (PN_XNUM) or more
+    program headers (or force_xnum) e_phnum is PN_XNUM and the real number is sh_info of section header 0; e_shnum is
+    `shnum_field` (1: the null section counted in the header, as the kernel writes it; 0: the number of sections is
+    extended as well, sh_size of section header 0 = 1).  The section header stands between the notes and the data.
+    segs: dicts(paddr, filesz, memsz, voff, data=bytes | None) in table order; each gets its file offset as s['off'].
+    Returns dict(e_phnum, e_shnum, e_shoff, sh_size, sh_info, nph)."""
+    E = ">" if be else "<"
+    nph = len(segs) + (1 if notes else 0)
+    xnum = force_xnum or nph >= 0xffff
+    ehsz, phsz, shsz = (64, 56, 64) if elfclass == 64 else (52, 32, 40)
+    hdr_end = ehsz + nph * phsz
+    shoff = (hdr_end + len(notes) + 7) // 8 * 8 if xnum else 0
+    off = ((shoff + shsz if xnum else hdr_end + len(notes)) + ps - 1) // ps * ps
+    mask = M64 if elfclass == 64 else 0xffffffff
+    ph = []
+    if notes:
+        if elfclass == 64:
+            ph.append(struct.pack(E + "IIQQQQQQ", 4, 0, hdr_end, 0, 0, len(notes), len(notes), 0))
+        else:
+            ph.append(struct.pack(E + "IIIIIIII", 4, hdr_end, 0, 0, len(notes), len(notes), 0, 0))
+    for s in segs:
+        s["off"] = off
+        va = (s["paddr"] + s.get("voff", 0)) & mask
+        if elfclass == 64:
+            ph.append(struct.pack(E + "IIQQQQQQ", 1, 7, off, va, s["paddr"], s["filesz"], s["memsz"], ps))
+        else:
+            ph.append(struct.pack(E + "IIIIIIII", 1, off, va, s["paddr"], s["filesz"], s["memsz"], 7, ps))
+        off += (s["filesz"] + ps - 1) // ps * ps
+    e_phnum = 0xffff if xnum else nph
+    e_shnum = shnum_field if xnum else 0
+    sh_size = 1 if (xnum and shnum_field == 0) else 0
+    ident = b"\x7fELF" + bytes([2 if elfclass == 64 else 1, 2 if be else 1, 1, 0]) + b"\0" * 8
+    if elfclass == 64:
+        eh = ident + struct.pack(E + "HHIQQQIHHHHHH", 4, EM[machine], 1, 0, ehsz, shoff, 0, ehsz, phsz, e_phnum, shsz if xnum else 0, e_shnum, 0)
+        sh = struct.pack(E + "IIQQQQIIQQ", 0, 0, 0, 0, 0, sh_size, 0, nph, 0, 0)
+    else:
+        eh = ident + struct.pack(E + "HHIIIIIHHHHHH", 4, EM[machine], 1, 0, ehsz, shoff, 0, ehsz, phsz, e_phnum, shsz if xnum else 0, e_shnum, 0)
+        sh = struct.pack(E + "IIIIIIIIII", 0, 0, 0, 0, 0, sh_size, 0, nph, 0, 0)
+    with open(path, "wb") as f:
+        f.write(eh + b"".join(ph) + notes)
+        if xnum:
+            f.seek(shoff)
+            f.write(sh)
+        for s in segs:
+            if s["filesz"]:
+                f.seek(s["off"])
+                f.write(bytes(s["data"][:s["filesz"]]).ljust(s["filesz"], b"\0"))
+        f.truncate(max(off, f.tell()))
+    return dict(e_phnum=e_phnum, e_shnum=e_shnum, e_shoff=shoff, sh_size=sh_size, sh_info=nph if xnum else 0, nph=nph, xnum=xnum)
